@@ -64,9 +64,11 @@ type c19Ev = core.VerifC19Event
 // c19Alphabet: simplest first (remote adds by nonce, price, account; the reorg section; head
 // moves; local adds for account A; split reorg; price floor; removals; eviction; Qi).
 // The universe selects which transactions may be submitted/removed:
-//   full   2 accounts x nonces {0,1,2} x prices {100,104,110}
-//   acctA  account A only, all nonces and prices
-//   small  2 accounts x nonces {0,1} x prices {100,110}
+//
+//	full   2 accounts x nonces {0,1,2} x prices {100,104,110}
+//	acctA  account A only, all nonces and prices
+//	small  2 accounts x nonces {0,1} x prices {100,110}
+//
 // Every universe has all section kinds.
 func c19Alphabet(w *core.VerifC19World, universe string) []c19Ev {
 	var a []c19Ev
